@@ -101,7 +101,7 @@ func gitExec(c *Ctx, op string) {
 			os.Remove(p)
 			switch g.Rand() % 7 {
 			case 0:
-				os.Symlink([]string{"a", "../x", "/etc/passwd", "d/e"}[g.Rand()%4], p)
+				os.Symlink([]string{"a", "../x", "/etc/passwd", "d/e", "trailing space ", " leading", "\ttab", "nl\n", "d/f g", "é", strings.Repeat("long/", 60)}[g.Rand()%11], p)
 			case 1:
 				os.WriteFile(p, nil, 0644) // empty (shares the empty blob with other empties)
 			case 2:
@@ -117,6 +117,10 @@ func gitExec(c *Ctx, op string) {
 			default:
 				os.WriteFile(p, []byte(fmt.Sprintf("text %d %s\n", ci, n)), 0644)
 			}
+		}
+		if ci == 0 {
+			os.Remove(filepath.Join(repo, "ws-link"))
+			os.Symlink([]string{"docs ", "\tindented", "target\n", " x "}[g.Rand()%4], filepath.Join(repo, "ws-link"))
 		}
 		gitCmd(repo, "add", "-A")
 		gitCmd(repo, "commit", "-q", "--allow-empty", "-m", fmt.Sprintf("c%d", ci))
